@@ -71,7 +71,9 @@ def why (s : S) : Ev → String
       let k := if q = 1 then Kind.pub1 else .pub2
       match request s op pid k dup body with
       | none => whyRequest s op pid k (some dup) body
-      | some s1 => if (account s1 pid).isNone then "C07 QoS>0 PUBLISH written although the send quota of this connection (Receive Maximum) is used up" else "model ?"
+      | some s1 =>
+        if s1.connected && op ≤ s1.lastPub then "C06 PUBLISH written after the PUBLISH of a later-initiated operation on the same connection"
+        else if (account s1 op pid).isNone then "C07 QoS>0 PUBLISH written although the send quota of this connection (Receive Maximum) is used up" else "model ?"
     | .subscribe op pid body => whyRequest s op pid .sub none body
     | .unsubscribe op pid body => whyRequest s op pid .unsub none body
     | .pubrel pid =>
